@@ -273,7 +273,7 @@ class C03(core.Check):
             body = ln[1:] if ln and ln[0][0] == "S" else ln
             lw = sum(s[1] for s in body)
             lws.append(lw)
-            if wrap != "clip" and lw > w:
+            if wrap in ("any", "space") and lw > w:       # clip / ellipsis (width 1): judged on the rendered row
                 msgs.append(f"line {k} is {lw} columns wide, width is {w}")
             for s in body:
                 if s[1] < 0 or s[0] == "S":
@@ -409,7 +409,12 @@ class C03(core.Check):
                 ew = len(e.encode(case["enc"])) if case["enc"] != "utf-8" else sum(_wc(c) for c in e)
             avail = w - ew
         col = sum(us[m][2] for m in range(j, i + 1))
-        return col > avail or (us[i][2] == 0 and col >= avail and any(m not in line_of and us[m][2] > 0 for m in range(j, i)))
+        if us[i][2] > 0:
+            return col > avail
+        # a zero-width character: beyond the cut when a visible character before it is already cut off, or when
+        # nothing visible of its line is shown at all (the shown part would be a line of zero-width characters only)
+        return (any(m not in line_of and us[m][2] > 0 for m in range(j, i))
+                or not any(m in line_of and us[m][2] > 0 for m in range(j, k)))
 
     def check_rows(self, case, res, raw, us, starts, ends, lws, ell):
         """each rendered row = shift spaces + the characters the layout line shows (+ inserted text) + padding"""
